@@ -725,6 +725,18 @@ fn start_campaign(w: &World, r: &mut Rng, g: &mut GenCtx, vis: &[VInfo], ps: &[P
         g.plan.push_back(Plan::LiqBy { vi, by: LIQUIDATOR, block: Blk::Free });
         return true;
     }
+    // a bystander market is delisted right before the liquidation and listed again after it: the victim's market stays registered
+    // whatever its place in the fund's list (C07 / C14: the registry is what its owner's accepted adds and removes leave).
+    // Decided by a hash of (seed, history): no draw from the history's PRNG
+    let hd = w.cfg.seed.wrapping_mul(0xA24B_AED4).wrapping_add(w.cfg.h.wrapping_mul(0x9FB2_1C65)) >> 6;
+    let others: Vec<&VInfo> = vis.iter().filter(|x| x.registered && x.idx != vi).collect();
+    if !others.is_empty() && hd % 3 == 1 {
+        let o = others[((hd >> 4) % others.len() as u64) as usize];
+        g.plan.push_back(Plan::IfRm { vi: o.idx });
+        g.plan.push_back(Plan::Liq { vi, victim, first: false });
+        g.plan.push_back(Plan::IfAdd { vi: o.idx });
+        return true;
+    }
     g.plan.push_back(Plan::Liq { vi, victim, first: true });
     true
 }
